@@ -100,6 +100,7 @@ def run(ck, fb):
     r01y(ck, fb)
     r01z(ck, fb)
     r01aa(ck, fb)
+    ck.borrow('rules.c20', {'R20h': 'R01ae', 'R20j': 'R01af', 'R20d': 'R01ag'}, 'snapshot records and log entries longer than what is left of a read chunk are completed from the next chunk: the unread bytes must be carried over completely and only the bytes that were read appended, or the record is restored from stale bytes / the rest of the file is not restored')
     ck.borrow('rules.c20', {'R20b': 'R01ad'}, 'snapshot records and log entries are framed by MessageBufReader: a length prefix decoded from bytes beyond the valid end cuts the record at the wrong place, and the start-up load treats the decode error as end of file - the rest of the snapshot is silently not restored')
     r01ac(ck, fb)
     ck.borrow('rules.c09', {'R09l': 'R01ab'}, 'a snapshot record carries the whole history of a key: the full-value path must store all 100 entries a node served before it stopped, not one fewer')
